@@ -6,7 +6,7 @@ from collections import Counter
 from typing import Dict, List, Optional, Tuple
 
 from ..collect import Path, callee_is, run_paths
-from ..common import calls_in, construct, defs_of, where
+from ..common import with_helpers as with_helpers_, calls_in, construct, defs_of, where
 from ..flow import ANY_EXC, NONE, Value, show, strparts, subterms
 from ..loader import AnalysisError, ClassInfo, FuncInfo, Program, walk_shallow
 from ..report import Report, Undecided
@@ -281,6 +281,17 @@ def _lin_env(e: ast.expr, loc: Dict[str, ast.expr], env: Dict[str, Tuple[Lin, Li
     return lin_of(e, {})
 
 
+def _subst_names(e: ast.expr, env_: Dict[str, ast.expr]) -> ast.expr:
+    import copy as _copy
+
+    class S(ast.NodeTransformer):
+        def visit_Name(self, n):
+            if isinstance(n.ctx, ast.Load) and n.id in env_:
+                return _copy.deepcopy(env_[n.id])
+            return n
+    return S().visit(e)
+
+
 def _generator_lambda(p: Program, gm: FuncInfo, gmn: ast.AST, g: ast.expr) -> ast.Lambda:
     """The part-header generator as `lambda start, end: <expression>`: a lambda, or a nested function with a single return,
     whose body may delegate to a module-level helper with a single return (its parameters substituted by the arguments)."""
@@ -296,6 +307,19 @@ def _generator_lambda(p: Program, gm: FuncInfo, gmn: ast.AST, g: ast.expr) -> as
         if len(defs) == 1:
             d = defs[0]
             body = [st for st in d.body if not (isinstance(st, ast.Expr) and isinstance(st.value, ast.Constant))]
+            if len(body) > 1 and isinstance(body[-1], ast.Return) and body[-1].value is not None and all(isinstance(st, ast.Assign) and len(st.targets) == 1 and isinstance(st.targets[0], ast.Name) for st in body[:-1]):
+                # straight-line locals before the return (a helper spliced in): substitute them
+                env_: Dict[str, ast.expr] = {}
+                okl = True
+                for st in body[:-1]:
+                    if st.targets[0].id in env_:
+                        okl = False
+                    v_ = copy.deepcopy(st.value)
+                    for n_ in ast.walk(v_):
+                        pass
+                    env_[st.targets[0].id] = _subst_names(v_, env_)
+                if okl:
+                    body = [ast.Return(value=_subst_names(copy.deepcopy(body[-1].value), env_))]
             if len(body) == 1 and isinstance(body[0], ast.Return) and body[0].value is not None and len(d.args.args) == 2:
                 expr = body[0].value
                 if isinstance(expr, ast.Call) and isinstance(expr.func, ast.Name) and not expr.keywords:
@@ -653,9 +677,13 @@ def run(p: Program, rep: Report, tier: str) -> None:
     # on the paths of parse_range (its private stages inlined): every RangeNotSatisfiable that is raised carries the size parameter
     try:
         ppaths, _pc, _pi = run_paths(p, pr, mixin)
-    except Exception as e_:  # the loops of parse_range can exceed the engine's bounds
+    except Exception as e_:  # the loops of parse_range can exceed the engine's bounds: fall back to the raise statements themselves
         ppaths = None
-        rep.undecide("R2.4", f"parse_range not explorable: {e_}")
+        rs_ = [n for f_ in with_helpers_(p, pr) for n in ast.walk(f_.node) if isinstance(n, ast.Raise) and "RangeNotSatisfiable" in ast.unparse(n)]
+        if rs_ and all(ast.unparse(n.exc) == "RangeNotSatisfiable(max_size)" for n in rs_):
+            rep.ok("R2.4", "parse_range raises RangeNotSatisfiable(max_size)")
+        else:
+            rep.undecide("R2.4", f"parse_range not explorable: {e_}")
     if ppaths is not None:
         MS = ("param", pr.params[-1] if "max_size" not in pr.params else "max_size")
         rns = [e.a for pa in ppaths for e in pa.events if e.kind == "raise" and "RangeNotSatisfiable" in show(e.a)]
